@@ -7,6 +7,7 @@ package main
 // abstractly over the same pair of lazily revealed tapes.
 
 import (
+	"math"
 	"time"
 	"fmt"
 	"gdsa/refs/dpkgorder"
@@ -586,18 +587,68 @@ func checkWeights(p *Prog, r *Rule, cmp *ssa.Function) {
 		return
 	}
 	var wf *ssa.Function
-	for _, f := range reachableRepoFuncs(cmp) {
-		if f == cmp {
-			continue
-		}
+	isWeightSig := func(f *ssa.Function) bool {
 		sig := f.Signature
-		if sig.Params().Len() == 1 && sig.Results().Len() == 1 && isIntT(sig.Params().At(0).Type()) && isIntT(sig.Results().At(0).Type()) {
-			if wf != nil && wf != f {
-				r.undecided("weights", p.Pos(f.Pos()), fmt.Sprintf("two candidate weight functions: %s and %s", fname(wf), fname(f)))
-				return
-			}
-			wf = f
+		return sig.Params().Len() == 1 && sig.Results().Len() == 1 && isIntT(sig.Params().At(0).Type()) && isIntT(sig.Results().At(0).Type())
+	}
+	var cands []*ssa.Function
+	for _, f := range reachableRepoFuncs(cmp) {
+		if f != cmp && isWeightSig(f) {
+			cands = append(cands, f)
 		}
+	}
+	if len(cands) > 1 {
+		// the one the comparator itself calls
+		var direct []*ssa.Function
+		seen := map[*ssa.Function]bool{}
+		for _, c := range allCalls(cmp) {
+			if callee := c.Common().StaticCallee(); callee != nil && !seen[callee] {
+				seen[callee] = true
+				for _, k := range cands {
+					if k == callee {
+						direct = append(direct, k)
+					}
+				}
+			}
+		}
+		if len(direct) == 1 {
+			cands = direct
+		}
+	}
+	if len(cands) > 1 {
+		// helpers of the weight function have the same shape: the weight function is the one the comparator
+		// (or one of its non-weight helpers) calls; what only weight candidates call is a helper
+		calledByOthers := map[*ssa.Function]bool{}
+		isCand := map[*ssa.Function]bool{}
+		for _, c := range cands {
+			isCand[c] = true
+		}
+		for _, f := range reachableRepoFuncs(cmp) {
+			if isCand[f] {
+				continue
+			}
+			for _, c := range allCalls(f) {
+				if callee := c.Common().StaticCallee(); callee != nil && isCand[callee] {
+					calledByOthers[callee] = true
+				}
+			}
+		}
+		var top []*ssa.Function
+		for _, c := range cands {
+			if calledByOthers[c] {
+				top = append(top, c)
+			}
+		}
+		if len(top) > 0 {
+			cands = top
+		}
+	}
+	if len(cands) > 1 {
+		r.undecided("weights", p.Pos(cands[1].Pos()), fmt.Sprintf("two candidate weight functions: %s and %s", fname(cands[0]), fname(cands[1])))
+		return
+	}
+	if len(cands) == 1 {
+		wf = cands[0]
 	}
 	if wf == nil {
 		// weights inlined into the comparator: covered by C01-RUN only
@@ -703,7 +754,8 @@ func checkCompareSeq(p *Prog, r *Rule, cmp *ssa.Function) {
 	bad := 0
 	rows := 0
 	var first string
-	for _, ep := range [][2]int64{{0, 0}, {1, 1}, {0, 1}, {1, 0}, {2, 5}, {5, 2}} {
+	// the epoch is unsigned: the last four pairs are 2^63 and 2^64-1 against small epochs and each other
+	for _, ep := range [][2]int64{{0, 0}, {1, 1}, {0, 1}, {1, 0}, {2, 5}, {5, 2}, {math.MinInt64, 0}, {0, math.MinInt64}, {-1, 1}, {1, -1}, {math.MinInt64, math.MaxInt64}, {-1, math.MinInt64}} {
 		for _, ru := range results {
 			for _, rr := range results {
 				m := NewMachine(p, nil)
@@ -725,14 +777,20 @@ func checkCompareSeq(p *Prog, r *Rule, cmp *ssa.Function) {
 				s0 := m.NewState(fn, []Val{mk(ep[0], "A"), mk(ep[1], "B")}, 0)
 				out := m.Run(s0)
 				rows++
-				want := sign(ep[0] - ep[1])
+				want := 0
+				switch {
+				case uint64(ep[0]) > uint64(ep[1]):
+					want = 1
+				case uint64(ep[0]) < uint64(ep[1]):
+					want = -1
+				}
 				if want == 0 {
 					want = sign(ru)
 				}
 				if want == 0 {
 					want = sign(rr)
 				}
-				desc := fmt.Sprintf("epochs %d,%d upstream-cmp %d revision-cmp %d", ep[0], ep[1], ru, rr)
+				desc := fmt.Sprintf("epochs %d,%d upstream-cmp %d revision-cmp %d", uint64(ep[0]), uint64(ep[1]), ru, rr)
 				for _, o := range out {
 					if o.Status != stRet {
 						// Compare looks into its operands itself (opaque operand tokens cannot be indexed): the bounded
